@@ -1,4 +1,5 @@
 import EaModel
+import EaModel.Lemmas.Least
 import Std.Data.HashMap
 /-!
 # Line protocol interpreter of the executable models
@@ -192,6 +193,18 @@ def handle (d : DState) (line : String) : DState × List String :=
       (d, [match r.replace d.zone day.int! with
         | .ok xs => "ok" ++ String.join (xs.map (fun x => s!" {x}"))
         | .error e => s!"err {e.name}"])
+  | [.atom "regular", tod, sk, rp, d0, d1] =>
+      -- executable check of the `TimeRegular` hypothesis (mono + sorted) on a range of local dates
+      let r : TimeRep := { tod := tod.int!, skipped := toSkipped sk, repeated := toRepeated rp }
+      let n := (d1.int! - d0.int!).toNat
+      let z := d.zone
+      let bad := (List.range n).filter fun (i : Nat) =>
+        let day : Int := d0.int! + (i : Int)
+        let a := candsOf z r day
+        let b := candsOf z r (day + 1)
+        !(a.all fun x => b.all fun y => x < y) || !(match a with | [x, y] => x ≤ y | _ => true) ||
+        !(a.all fun x => day - 1 ≤ z.localDay x && z.localDay x ≤ day + 1)
+      (d, [if bad.isEmpty then "regular ok" else s!"regular fail {d0.int! + ((bad.headD 0 : Nat) : Int)}"])
   | [.atom "sched-reset", now] =>
       ({ d with sched := { now := now.int!, env := d.env }, handles := [] }, [])
   | .atom "op" :: rest =>
